@@ -22,4 +22,9 @@ PROPS = {
             "level_text": "Bounded symbolic execution + SMT: all 16 entries free reals (det != 0 as the only assumption; the code's single divisor is shown non-zero under it); every entry of M*inv and inv*M is proved equal to the identity for all such inputs; the epsilon-select of the affine inverse forks and every branch is decided.",
             "level_note": "Exact-real semantics; no loop bound applies. Rotations enter through the quaternion parametrisation (covers all of SO(3)); scales with s^2 > EPS. Trusted: rustc, the symbolic scalar, z3.",
             "bounds": {"sizes": [2, 3, 4], "layouts": 2, "det(AB) for 4x4": "thorough tier only", "affine inverse": "scales with s_i^2 > EPS (EPS symbolic in (0, 2^-20])"}, "assumptions": COMMON_S},
+    "C04": {"engines": "S",
+            "technique": "symbolic execution of the real rotation builders at an exact-real scalar with sin/cos as atoms (s^2+c^2=1, angle-sum/double-angle instances) and the axis norm as a sqrt atom; orthogonality, det=+1, axis fixing, handedness, additivity, Mat3/Mat4/quaternion/Vec2 consistency decided by z3 (QF_NRA)",
+            "level_text": "Bounded symbolic execution + SMT: angle and axis are free reals, sin/cos/sqrt enter only through sound axioms, so every discharged goal holds for all angles and all non-zero axes. No loop or value bound.",
+            "level_note": "Exact-real semantics; trig atoms axiomatised (Pythagoras, congruence, angle sum, double angle, values at 0). Trusted: rustc, the symbolic scalar, z3.",
+            "bounds": {"types": ["Mat2", "Mat3", "Mat4", "Quaternion", "Vec2"], "layouts": 2}, "assumptions": COMMON_S},
 }
